@@ -12,7 +12,25 @@ the in-progress table of the implementation:
   open ones when the run stops (most recently begun first), with no second timestamp.
 
 The tables `specBucket`/`specOutcome`/`finalStatus` are the property's reading of the status names; the
-theorems prove that the tables extracted from the code (`TTV.Generated.Stream`) agree with them. -/
+theorems prove that the tables extracted from the code (`TTV.Generated.Stream`) agree with them.
+
+**Interpretations** (readings this specification takes *from the code*; an independent audit - audit/C10 - read the
+prose the other way, the code is left as it is, so they are stated plainly here):
+* *an attachment exists from its first non-empty chunk*: `_update_case` tests `if file_name is not None and file_bytes:`,
+  so empty chunks are skipped altogether - an attachment all of whose chunks are empty (also a skip `reason` that is
+  the empty string) is not reported at all, and its content type is the `mime_type` of the first NON-empty chunk (a
+  type sent only with an empty first chunk is lost).  "each attachment's chunks concatenated" is read over the
+  non-empty chunks.
+* *a test reported "exactly once" is a lifetime*: repeated finals and events after a final open a new lifetime of the
+  same key, which is reported again (the licence `StreamResult.status` documents).
+* `StreamToExtendedDecorator` drops `exists` events BEFORE its table (the clauses for that consumer filter them out of the stream first): `inprogress` then
+  `exists` leaves the test open and it is flushed as a failure at `stopTestRun`, while `StreamToDict` reports `exists`
+  and `StreamSummary` ignores the test.  The extended API has no outcome for `exists`; the clause for that consumer is
+  about the exists-free stream.
+* `fail` lands in `StreamSummary.errors` (`failures` stays empty); timestamps are those of the first and the last
+  *event* of the lifetime (`None` if that event carried none).
+* calling convention: events are passed by keyword (`StreamToExtendedDecorator.status(test_id, test_status, *args)`
+  rejects a third positional argument with TypeError; C11 covers the positional conventions of the decorators). -/
 namespace TTV.Spec.C10
 open TTV.Stream
 
